@@ -612,3 +612,83 @@ def rename_call(ctx, fi, c):
                 if a is not None and b is not None:
                     return a, b, g
     return None
+
+
+def len_range(facts, coll: str):
+    """(lo, hi) bounds on len(<coll>) implied by a set of (text, polarity) facts; hi None = unbounded.
+    Understands len(c) <op> k, `c` / `not c` (truthiness of a sized container) and len(c) as a truth value."""
+    import re as _re
+    lo, hi = 0, None
+    c = coll.replace(" ", "")
+
+    def upd(nlo=None, nhi=None):
+        nonlocal lo, hi
+        if nlo is not None:
+            lo = max(lo, nlo)
+        if nhi is not None:
+            hi = nhi if hi is None else min(hi, nhi)
+
+    for (t, pol) in facts:
+        tt = t.replace(" ", "")
+        if tt == c or tt == f"len({c})" or tt == f"bool({c})":
+            if pol:
+                upd(nlo=1)
+            else:
+                upd(nhi=0)
+            continue
+        m = _re.fullmatch(_re.escape(f"len({c})") + r"(==|!=|>=|<=|>|<)(\d+)", tt)
+        if not m:
+            continue
+        op, k = m.group(1), int(m.group(2))
+        if not pol:
+            op = {"==": "!=", "!=": "==", ">": "<=", "<=": ">", "<": ">=", ">=": "<"}[op]
+        if op == "==":
+            upd(nlo=k, nhi=k)
+        elif op == ">":
+            upd(nlo=k + 1)
+        elif op == ">=":
+            upd(nlo=k)
+        elif op == "<":
+            upd(nhi=k - 1)
+        elif op == "<=":
+            upd(nhi=k)
+        elif op == "!=" and k == 0:
+            upd(nlo=1)
+    return lo, hi
+
+
+def callee_is(ctx, fi, call, names) -> bool:
+    """The callee of `call` is one of the (parameter) names, or a local every definition of which is derived from one of them
+    (`copy_directory = shutil.copytree if copytree is None else copytree`)."""
+    f = call.func
+    if not isinstance(f, ast.Name):
+        return False
+    if f.id in names:
+        return True
+    if f.id in fi.params:
+        return False
+    try:
+        defs = reaching_defs(ctx, fi, f.id, call)
+    except Exception:
+        return False
+    exprs = [d for d in defs if isinstance(d, ast.AST)]
+    if not exprs or len(exprs) != len(defs):
+        return False
+    return all(any(isinstance(x, ast.Name) and x.id in names for x in ast.walk(d)) for d in exprs)
+
+
+def derived_names(fi, name):
+    """Locals of `fi` whose value is computed from `name` (flow-insensitive closure over plain assignments, including `name` itself)."""
+    from ..core import body_nodes as _bn, names_in as _ni
+    derived = {name}
+    changed = True
+    while changed:
+        changed = False
+        for n in _bn(fi):
+            if isinstance(n, ast.Assign) and (_ni(n.value) & derived):
+                for t in n.targets:
+                    for x in ast.walk(t):
+                        if isinstance(x, ast.Name) and x.id not in derived:
+                            derived.add(x.id)
+                            changed = True
+    return derived
